@@ -96,7 +96,7 @@ def atom(r, st, f):
     return r.choice(opts)
 
 
-QUANTS = [(0, None), (1, None), (0, 1), (2, 2), (1, 2), (0, 2), (2, None), (2, 3)]
+QUANTS = [(0, None), (1, None), (0, 1), (2, 2), (1, 2), (0, 2), (2, None), (2, 3), (1, 1)]
 
 
 def gen_tree(r, depth, st, f):
@@ -234,6 +234,8 @@ CONTEXTS = [
     "(%s)*\\1", "(?:%s){2}(?=)", "(?:%s){1,2}?(?=)", "a(?=)%s", "%s(?=)a", "(?:%s|b)(?=)c", "((?=)%s)*",
     "(?=(%s))\\1", "(?<=%s)c", "(?<!%s)c", "\\K%s", "%s\\Kb", "(?:%s)?+a", "(?:%s)*+", "(%s)(?(1)a|b)",
     "(?:(%s)|b)*(?=)", "(?:(?:(%s)|b)(?=))*", "(?=(?:%s)*)a", "(?>(?:%s)*)a", "\\b%s\\b",
+    # lazy counted repeats in VM context whose continuation fails until the upper bound is reached
+    "(?=)(?:%s){1,2}?b", "(?:%s){0,2}?(?=)$", "((?:%s){1,2}?)b\\1?", "(?:%s){2,3}?(?=)c",
 ]
 
 
